@@ -3,7 +3,7 @@
 # (/tmp/wt-<id>): existing suite passes with it, demo fails with it and passes without it; then copy it to seeded/.
 set -u
 id=$1; name=${2:-agent}
-wt=/tmp/wt-$id
+wt=${WT:-/tmp/wt-$id}
 out=/verif/seeded/$id-$name
 export CARGO_TARGET_DIR=$wt/target
 cd $wt || exit 3
